@@ -20,7 +20,8 @@ ASSUMPTIONS = ['virtual time: library processing takes zero time, so setpoint in
                'programs keep the commanded altitude at or above the landing height (physical flights); for the MotionCommander '
                'an altitude of exactly 0 at land() is excluded (division by zero in down(0) needs measure-zero timing on a real clock)']
 REQUIRED = ['mon.mc_programs', 'mon.mc_exceptions_in_body', 'mon.mc_hover_setpoints', 'mon.mc_primitives_checked',
-            'mon.hl_programs', 'mon.hl_goto_checked', 'mon.hl_exceptions_in_body', 'mon.quiet_after_landing']
+            'mon.hl_programs', 'mon.hl_goto_checked', 'mon.hl_exceptions_in_body', 'mon.quiet_after_landing',
+            'mon.mc_consecutive_motions_with_same_vertical_velocity']
 DESC_TIMEOUT = 900
 PERIOD = 0.2
 
@@ -72,7 +73,7 @@ def gen_mc_program(rnd):
     z = h0
     for _ in range(rnd.randint(0, 10)):
         k = rnd.choice(('left', 'right', 'forward', 'back', 'up', 'down', 'move', 'turn_left', 'turn_right', 'circle_left',
-                        'circle_right', 'start', 'start_turn', 'start_circle'))
+                        'circle_right', 'start', 'start_turn', 'start_circle', 'start_chain'))
         v = rnd.choice((0.2, 0.5, 1.0, rnd.uniform(0.05, 2.0)))
         d = rnd.choice((0.1, 0.5, 1.0, rnd.uniform(0.01, 3.0)))
         if k == 'up':
@@ -100,6 +101,20 @@ def gen_mc_program(rnd):
                 vz = 0.0
             z += vz * dwell
             prog.append((k, (rnd.uniform(-1, 1), rnd.uniform(-1, 1), vz, rnd.choice((0.0, rnd.uniform(-90, 90)))), dwell))
+        elif k == 'start_chain':
+            # several non-blocking motions in a row without stop() in between (an application steering while it
+            # climbs): the vertical velocity is often exactly the one already in progress
+            chain = []
+            vz = rnd.choice((0.0, rnd.uniform(-0.3, 0.3), rnd.uniform(0.05, 0.3)))
+            for _j in range(rnd.randint(2, 4)):
+                if rnd.random() < 0.4:
+                    vz = rnd.uniform(-0.3, 0.3)
+                dwell = rnd.choice((0.05, 0.3, 1.0, rnd.uniform(0.01, 2.0)))
+                if z + vz * dwell < 0.1:
+                    vz = 0.0
+                z += vz * dwell
+                chain.append(((rnd.uniform(-1, 1), rnd.uniform(-1, 1), vz, rnd.choice((0.0, rnd.uniform(-90, 90)))), dwell))
+            prog.append((k, chain))
         elif k == 'start_turn':
             prog.append((k, rnd.choice((1, -1)) * rnd.uniform(5, 200), rnd.uniform(0.01, 2.0)))
         elif k == 'start_circle':
@@ -160,6 +175,16 @@ def run_mc(desc, ctx):
                     mc.start_linear_motion(vel[0], vel[1], vel[2], vel[3])
                     s.sleep(dwell)
                     mc.stop()
+                elif k == 'start_chain':
+                    prev_vz = None
+                    for (vel, dwell) in p[1]:
+                        seg(s, vel, dwell)
+                        if prev_vz is not None and prev_vz == vel[2] and vel[2] != 0.0:
+                            ob['same_vz'] = ob.get('same_vz', 0) + 1
+                        prev_vz = vel[2]
+                        mc.start_linear_motion(vel[0], vel[1], vel[2], vel[3])
+                        s.sleep(dwell)
+                    mc.stop()
                 elif k == 'start_turn':
                     rate, dwell = p[1], p[2]
                     seg(s, (0.0, 0.0, 0.0, rate), dwell)
@@ -209,6 +234,7 @@ def run_mc(desc, ctx):
             _, abort, sch = harness.sched_case(fn, seed=desc['seed'] * 31 + it, policy=pol, horizon=5000.0)
             ctx.evals()
             ctx.count('mon.mc_programs')
+            ctx.count('mon.mc_consecutive_motions_with_same_vertical_velocity', ob.pop('same_vz', 0))
             info = {'program': core.jsonable(prog)[:8], 'default_height': h0, 'exception_before_primitive': boom_at, 'form': form,
                     'schedule': pol}
             rp = {'seed': desc['seed'], 'kind': 'mc', 'n': it + 1}
